@@ -14,15 +14,18 @@ Section Spec.
   (* a name is taken: claimed by a registered collector, or target_info while target info is configured *)
   Definition occupied (r : reg) (n : str) : Prop := (exists c, claims r c n) \/ (n = TI_NAME /\ ti r <> []).
 
-  (* DESIGN Appendix A, plus: the recorded names are those the collector describes, and TargetInfo owns
-     nothing but target_info *)
+  (* DESIGN Appendix A, plus: TargetInfo owns nothing but target_info.  It does not mention the collectors'
+     behaviour: the names are those recorded when the collector was registered, whatever it describes now *)
   Definition Inv (r : reg) : Prop :=
     NoDup (map fst (n2c r)) /\ NoDup (map fst (c2n r)) /\
-    (forall c ns, In (c, ns) (c2n r) ->
-       NoDup ns /\ ns = get_names (auto r) (env c) /\ forall n, In n ns -> In (n, Coll c) (n2c r)) /\
+    (forall c ns, In (c, ns) (c2n r) -> NoDup ns /\ forall n, In n ns -> In (n, Coll c) (n2c r)) /\
     (forall n c, In (n, Coll c) (n2c r) -> exists ns, In (c, ns) (c2n r) /\ In n ns) /\
     (In (TI_NAME, TargetInfo) (n2c r) <-> ti r <> []) /\
     (forall n, In (n, TargetInfo) (n2c r) -> n = TI_NAME).
+
+  (* while no collector changes: the recorded names are exactly those the collector describes *)
+  Definition InvS (r : reg) : Prop :=
+    Inv r /\ forall c ns, In (c, ns) (c2n r) -> ns = get_names (auto r) (env c).
 
   (* every sample name a collector yields is among the names it claimed *)
   Definition well_described (r : reg) (c : cid) : Prop :=
@@ -53,12 +56,6 @@ Section Spec.
     | _, _ => t
     end.
 
-  Fixpoint trace (r : reg) (ops : list op) : list (op * option exn) :=
-    match ops with
-    | [] => []
-    | o :: rest => (o, snd (step env r o)) :: trace (fst (step env r o)) rest
-    end.
-
   Definition spec_keys (ks : list cid) (tr : list (op * option exn)) : list cid :=
     fold_left (fun ks p => spec_step ks (fst p) (snd p)) tr ks.
 
@@ -71,3 +68,10 @@ Section Spec.
     | _ => [mk_family S_target TInfo S_target_help [] [mk_sample TI_NAME l 1]]
     end.
 End Spec.
+
+(* the calls of a history and whether each raised; every step sees the collectors as they are at that moment *)
+Fixpoint trace_dyn (r : reg) (eops : list ((cid -> cbeh) * op)) : list (op * option exn) :=
+  match eops with
+  | [] => []
+  | (e, o) :: rest => (o, snd (step e r o)) :: trace_dyn (fst (step e r o)) rest
+  end.
